@@ -273,7 +273,7 @@ def run(ctx, rep):
                   "total_size(type) does not return exactly the requested type's bucket total (mixes types or ignores its argument)")
     # ---- C17.f ------------------------------------------------------------------------------------
     from rules import errprop
-    errprop.run_items(ctx, rep, "C17.f")
+    errprop.run_iter(ctx, rep, "C17.f")
     # ---- C17.e ------------------------------------------------------------------------------------
     # get_id: only the FullEntries arm (discriminant 2) leads to a search; everything else returns None
     okg = False
